@@ -95,8 +95,12 @@ def depMsgOf : Option Str → Str
 /-- the comment a run of `// doc` lines denotes: the lines (without the slashes), joined by line breaks -/
 def docOf (doc : List Str) : Str := joinLines doc
 
+/-- the tags a run of `// doc` lines inside a body carries: the lines of the form `[tag(key)]` /
+    `[tag(key:"value")]` (`commentTag`, the parser's own reading), in order -/
+def tagsOf (doc : List Str) : List Tag := doc.filterMap (fun c => (commentTag c).getD none)
+
 def fieldOfC (f : CField) : Field :=
-  { ft := ftOf f.ty, name := f.name, comment := docOf f.doc, tags := [], depMsg := depMsgOf f.dep,
+  { ft := ftOf f.ty, name := f.name, comment := docOf f.doc, tags := tagsOf f.doc, depMsg := depMsgOf f.dep,
     deprecated := f.dep.isSome }
 
 /-- the number an opcode attribute denotes (`readOpCode`): `strconv.ParseUint(lit, 0, 32)`, or the four
@@ -111,7 +115,7 @@ def idxVal (lit : Str) : Nat := (parseUint lit false 8).getD 0
 
 def msgFieldOf (g : CMsgField) : Nat × Field :=
   (idxVal g.idx,
-   { ft := ftOf g.ty, name := g.name, comment := docOf g.doc, tags := [], depMsg := depMsgOf g.dep,
+   { ft := ftOf g.ty, name := g.name, comment := docOf g.doc, tags := tagsOf g.doc, depMsg := depMsgOf g.dep,
      deprecated := g.dep.isSome })
 
 def kwUint32 : Str := [117, 105, 110, 116, 51, 50]
@@ -166,7 +170,7 @@ def memberOf (m : CUMember) : Nat × UnionField :=
           UBody.st { name := name, comment := docOf doc, fields := fields.map fieldOfC, opCode := 0, readOnly := false }
         | .message doc _ _ name fields =>
           UBody.msg { name := name, comment := docOf doc, fields := fields.map msgFieldOf, opCode := 0 }),
-     tags := [], depMsg := depMsgOf m.dep, deprecated := m.dep.isSome })
+     tags := tagsOf m.doc, depMsg := depMsgOf m.dep, deprecated := m.dep.isSome })
 
 def addDefC (F : File) (cs : List Str) : CDef → File
   | .struct op ro name fields =>
@@ -204,9 +208,10 @@ def CTypeOk : CType → Prop
 /-- A `// doc` line at top level or in an enum: any text without line break and CR. -/
 def docLineOk (c : Str) : Bool := c.all (fun x => !(x == 13 || x == 10))
 
-/-- A `// doc` line inside a struct, message or union body: moreover not of the form `[tag(…)]`
-    (`commentTag`, the parser's own test). -/
-def bodyDocOk (c : Str) : Prop := docLineOk c = true ∧ commentTag c = some none
+/-- A `// doc` line inside a struct, message or union body: moreover the parser's tag reader
+    (`commentTag`) is defined on it — it is an ordinary comment, or a tag `[tag(key)]` / `[tag(key:"value")]`
+    whose value is a plain string. -/
+def bodyDocOk (c : Str) : Prop := docLineOk c = true ∧ (commentTag c).isSome = true
 
 def CFieldOk (f : CField) : Prop :=
   (∀ c ∈ f.doc, bodyDocOk c) ∧ (∀ c, f.trail = some c → docLineOk c = true) ∧
